@@ -539,7 +539,8 @@ func (m *Manager) PruneBlocks(height uint64) {
 	m.mu.Lock()
 	defer m.mu.Unlock()
 
-	for h := height; h > 0; h-- {
+	// there is nothing to prune above the tip
+	for h := min(height, m.tipState.Index.Height+1); h > 0; h-- {
 		index, ok := m.store.BestIndex(h - 1)
 		if !ok {
 			break // block does not exist
